@@ -40,7 +40,7 @@ pub enum Op {
     Errfd(usize),
 }
 
-const ALPHA1: [Op; 8] = [
+const ALPHA1: [Op; 9] = [
     Op::SetFeaturesNoPf,
     Op::SetFeaturesPf,
     Op::Kickfd(0),
@@ -49,23 +49,24 @@ const ALPHA1: [Op; 8] = [
     Op::GetBase(0),
     Op::Reset,
     Op::Kick(0),
+    Op::KickNofd(0),
 ];
 
 /// number of histories of length 1..=3 over ALPHA1
-pub const SWEEP: u64 = 8 + 64 + 512;
+pub const SWEEP: u64 = 9 + 81 + 729;
 
 fn sweep_history(mut i: u64) -> Vec<Op> {
     let mut len = 1;
-    let mut block = 8;
+    let mut block = 9;
     while i >= block {
         i -= block;
-        block *= 8;
+        block *= 9;
         len += 1;
     }
     let mut v = Vec::new();
     for _ in 0..len {
-        v.push(ALPHA1[(i % 8) as usize]);
-        i /= 8;
+        v.push(ALPHA1[(i % 9) as usize]);
+        i /= 9;
     }
     v
 }
@@ -122,12 +123,12 @@ pub fn def() -> PropDef {
         quick_runs: 20000,
         thorough_runs: 1_500_000,
         level: "exploration",
-        rule: "a live daemon (2 rings, one or two workers, VringMutex or VringRwLock, Mutex or RwLock backend adapter) driven by the real Frontend through a control-message history; index < 584 enumerates every history of length 1..3 over {SET_FEATURES without/with PROTOCOL_FEATURES, SET_VRING_KICK, ENABLE 1, ENABLE 0, GET_VRING_BASE, RESET_DEVICE, guest kick} on ring 0; beyond that seeded histories of 1..14 steps on both rings incl. SET_VRING_CALL/BASE/NUM; after every step the harness waits for quiescence (nothing can happen later without an external event) and compares the backend's handle_event log and GET_VRING_BASE results with a reference ring state machine; distinct = distinct (workload tape, interleaving, fault trace); non-trivial = history has >= 2 steps",
+        rule: "a live daemon (2 rings, one or two workers, VringMutex or VringRwLock, Mutex or RwLock backend adapter) driven by the real Frontend through a control-message history; index < 819 enumerates every history of length 1..3 over {SET_FEATURES without/with PROTOCOL_FEATURES, SET_VRING_KICK with a new descriptor, SET_VRING_KICK without a descriptor, ENABLE 1, ENABLE 0, GET_VRING_BASE, RESET_DEVICE, guest kick} on ring 0; beyond that seeded histories of 1..14 steps on both rings incl. SET_VRING_CALL/ERR/BASE/NUM and guest kicks on descriptors the ring gave up; after every step the harness waits for quiescence (nothing can happen later without an external event) and compares the backend's handle_event log and GET_VRING_BASE results with a reference ring state machine; distinct = distinct (workload tape, interleaving, fault trace); non-trivial = history has >= 2 steps",
         assumptions: ASSUME,
         real: REAL_D,
         stubs: STUB_D,
         sweep_size: |_| SWEEP,
-        sweep_desc: "every control history of length 1..3 over the 8-letter reduced alphabet on one ring",
+        sweep_desc: "every control history of length 1..3 over the 9-letter reduced alphabet on one ring",
         panic_prop: "C11",
     }
 }
